@@ -62,3 +62,10 @@ PROPS = {
             "level_text": "Theorem c14_push_policy holds for EVERY policy function: consulted values are a prefix of the batch, each once, in order; approved ones are exactly what is appended; the first rejection stops the batch, is recorded in Err and is not stored; capacity respected.",
             "technique": "Coq proof parametric in the policy closure + differential correspondence check with logged table-driven policies"},
 }
+
+# entries contributed by the module builders (tools/props.d/*.json)
+import glob as _glob, json as _json, os as _os
+for _f in sorted(_glob.glob(_os.path.join(_os.path.dirname(_os.path.abspath(__file__)), "props.d", "*.json"))):
+    _d = _json.load(open(_f))
+    FAMILIES.update(_d.get("families", {}))
+    PROPS.update(_d.get("props", {}))
